@@ -371,6 +371,23 @@ func runFlags(ctx *core.RunCtx) {
 		}
 		return vals, strings.Join(desc, ", ")
 	}
+	// Lua glue for the spellings that need Lua code around the call
+	glue := h.Run("glue", `return function(f) local co = coroutine.wrap(function() return f(coroutine.yield()) end) co() return co end,
+	function(f) return load("local f = ... return function(...) return f(...) end")(f) end,
+	function(f) return setmetatable({}, {__call = function(_, ...) return f(...) end}) end`)
+	if glue.Err != nil || glue.Panic != nil || len(glue.Values) != 3 {
+		ctx.Fail("C08", "C08.H", "harness", "glue chunk failed: %s", glue.String())
+		return
+	}
+	// built OUTSIDE the context that will require the flags: a coroutine suspended inside the argument
+	// list of the call to f, a Lua closure made by load, an object whose __call metamethod calls f
+	prebuilt := func(k int) rt.Value {
+		o := h.Call(glue.Values[k], fn.v)
+		if o.Err != nil || o.Panic != nil || len(o.Values) != 1 {
+			return rt.NilValue
+		}
+		return o.Values[0]
+	}
 	// one protected call of f inside a context requiring flags
 	typeFn := h.R.GlobalEnv().Get(rt.StringValue("type"))
 	call := func(flags rt.ComplianceFlags, spelling int, args []rt.Value) (errS string, results []rt.Value, liveAfter bool, pan interface{}) {
@@ -379,10 +396,19 @@ func runFlags(ctx *core.RunCtx) {
 				pan = r
 			}
 		}()
+		var pre rt.Value
+		if spelling >= 4 {
+			pre = prebuilt(spelling - 4)
+			if pre.IsNil() {
+				spelling = 0
+			}
+		}
 		_, _ = th.CallContext(rt.RuntimeContextDef{RequiredFlags: flags}, func() error {
 			term := rt.NewTerminationWith(nil, 0, true)
 			var err error
 			switch spelling {
+			case 4, 5, 6: // set up outside the context, finished inside it
+				err = rt.Call(th, pre, args, term)
 			case 0:
 				err = rt.Call(th, fn.v, args, term)
 			case 1: // through pcall
@@ -469,7 +495,7 @@ func runFlags(ctx *core.RunCtx) {
 		flags := flagSet(bits)
 		for rep := 0; rep < 2; rep++ {
 			args, adesc := mkArgs(rep == 0 && g.Chance(2, 3))
-			spelling := g.Choose(4)
+			spelling := g.Choose(7)
 			traced := tracer != nil && (bits&^declared != 0 || bits&8 != 0)
 			if traced {
 				tracer.begin()
